@@ -1532,6 +1532,21 @@ func (u *Unit) checkLoopFrame(lb *Block, st *State) {
 // allocated object cannot already be referenced from the heap.
 func (e *Ev) notInHeaps(pred func(c string) string) {
 	g := e.g()
+	// nor is it referenced from a local variable of the running unit
+	var vs []types.Object
+	for v := range e.st.vars {
+		vs = append(vs, v)
+	}
+	sort.Slice(vs, func(i, j int) bool { return vs[i].Pos() < vs[j].Pos() })
+	for _, v := range vs {
+		t := e.st.vars[v]
+		if t.T == nil || t.S == "" || t.UConst != nil || t.Loc != nil || t.Clo != nil {
+			continue
+		}
+		for _, c := range g.refComponents(t.S, t.T, e.bv, 0) {
+			e.define(pred(c))
+		}
+	}
 	for _, h := range sortedHeapNames(e.st.heaps) {
 		t := e.st.heaps[h]
 		if strings.HasPrefix(h, "G$") || strings.HasPrefix(h, "M$") {
